@@ -162,7 +162,8 @@ def tlc(sc, module, cfg, mode="check", workers=None, timeout=600, simulate=None,
     deadlock=False disables deadlock checking (-deadlock flag)."""
     d = sc.path(subdir)
     meta = tempfile.mkdtemp(prefix="meta-", dir=sc.dir)
-    props = ["-Xss512m", "-Xmx" + xmx, "-XX:+UseParallelGC"]
+    # java.io.tmpdir inside the scratch dir: TLC leaves an empty tlc-<n> directory there per run
+    props = ["-Xss512m", "-Xmx" + xmx, "-XX:+UseParallelGC", "-Djava.io.tmpdir=" + meta]
     if deque:
         props.append("-Dtlc2.tool.queue.IStateQueue=StateDeque")
     cmd = ["java"] + props + ["-cp", JAR + ":" + CMJAR, "tlc2.TLC", "-metadir", meta,
